@@ -41,6 +41,19 @@ RequestsConc == {r \in {R("POST", q, o, v, e) : q \in {"-", "Q1"}, o \in {"-", "
                 \cup {[R("GET", "Q1", "A", "V1", "H:Q1") EXCEPT !.acc = "gql"], R("GET", "-", "-", "V2", "H:Q1"),
                       R("WS", "Q2", "-", "-", "X")}
 
+(* the twin instance: every twin text over GET, POST and the websocket *)
+RT(tr, q) == [tr |-> tr, q |-> q, opn |-> "-", vars |-> "-", ext |-> "-", acc |-> "-"]
+RequestsTwin == {RT(t, q) : t \in {"GET", "POST", "WS"}, q \in TwinTexts}
+(* the cover needs a twin after its twin, not every mixture of families: at most one family is cached *)
+TwinFocus == \A e1, e2 \in qcache : Family(e1[2]) = Family(e2[2])
+CfgCaches == {"none", "map", "nocache"}
+CfgNoCache == {"nocache"}
+
+(* the websocket part: A = a subscription with two events, B = an operation with one; one ping *)
+WsNone == <<>>
+WsAB == [id \in {"A", "B"} |-> IF id = "A" THEN 2 ELSE 1]
+ReqNone == {}
+
 (* three requests in flight, one per slot, every order of their Execute and Write steps *)
 HeldSeq == <<R("POST", "Q1", "A", "V1", "-"), RA("GET", "Q2", "A", "V2", "gql"), R("POST", "Q1", "B", "V2", "X")>>
 RequestsHeld == {HeldSeq[i] : i \in 1..3}
